@@ -198,6 +198,31 @@ let () =
         ^ ",\"spec\":" ^ jpairs (spec_f b c (add c (S (ops_f b)))) ^ ",\"ops\":" ^ jnat (ops_f b) ^ "}"
     | _ -> raise (Bad "macrora"))
 
+(* C05: one macro expansion at pseudo-code level.  (macrobuild ((name PARAM)...) (ITEM...) cl co)
+   ITEM = (op code PARAM...) | (lab id KIND) | (jmp code (PARAM...) id KIND); KIND = (plain) | (start n) | (end) *)
+let () =
+  let as_kind = function
+    | L [ Atom "plain" ] -> LPlain
+    | L [ Atom "start"; n ] -> LStart (nat_of_int (as_int n))
+    | L [ Atom "end" ] -> LEnd
+    | _ -> raise (Bad "kind") in
+  let as_item = function
+    | L (Atom "op" :: c :: ps) -> BOp (as_name c, as_params ps)
+    | L [ Atom "lab"; i; k ] -> BLab (nat_of_int (as_int i), as_kind k)
+    | L [ Atom "jmp"; c; L ps; i; k ] -> BJmp (as_name c, as_params ps, nat_of_int (as_int i), as_kind k)
+    | _ -> raise (Bad "bitem") in
+  let jkind = function LPlain -> "[\"plain\"]" | LStart n -> "[\"start\"," ^ jnat n ^ "]" | LEnd -> "[\"end\"]" in
+  let jitem = function
+    | OOp (n, c, ps) -> "[\"op\"," ^ jnat n ^ "," ^ jname c ^ "," ^ jlist jparam ps ^ "]"
+    | OLab (i, k) -> "[\"lab\"," ^ jnat i ^ "," ^ jkind k ^ "]"
+    | OJmp (n, c, ps, i) -> "[\"jmp\"," ^ jnat n ^ "," ^ jname c ^ "," ^ jlist jparam ps ^ "," ^ jnat i ^ "]" in
+  register "macrobuild" (function
+    | L [ _; L sg; L bp; cl; co ] ->
+        let sg = List.map (function L [ n; p ] -> (as_name n, as_param p) | _ -> raise (Bad "sigma")) sg in
+        let ((out, cl1), co1) = build sg (List.map as_item bp) (nat_of_int (as_int cl)) (nat_of_int (as_int co)) in
+        "{\"r\":\"ok\",\"out\":" ^ jlist jitem out ^ ",\"cl\":" ^ jnat cl1 ^ ",\"co\":" ^ jnat co1 ^ "}"
+    | _ -> raise (Bad "macrobuild"))
+
 (* C06: meta attributes and the dispatch to the SsbScript compiler.  (meta (cps of a text)) *)
 let () =
   register "meta" (function
